@@ -1,6 +1,9 @@
 import FluteModel.Lemmas.BencShape
 import FluteModel.Lemmas.BencTerm
 import FluteModel.Lemmas.BencPsi
+import FluteModel.Lemmas.BencNoPanic
+import FluteModel.Lemmas.BencEmpty
+import FluteModel.Lemmas.BencSession
 /-
   C08 - per-transfer symbol emission, RFC offsets, end flags.
 
@@ -154,7 +157,8 @@ theorem close_object_only_last_partial {s1 s2 : Enc} {f : Bool} {p : Pkt}
     (`is_last_transfer`) AND this packet is the last one of the transfer: every block of the object has been cut
     (`sbn = N`, `read_end`), every open block is drained, and for EVERY block the packets emitted so far are all of
     its shards - nothing is left to send.  (`SymLe`: the codec's source symbols have at most `E` bytes - proved for
-    No-Code, Reed-Solomon, RaptorQ: `noCode_symLe`, `reedSolomon_symLe`, `raptorQ_symLe`.) -/
+    No-Code, Reed-Solomon, RaptorQ and for the Raptor crate's split as it is: `noCode_symLe`, `reedSolomon_symLe`,
+    `raptorQ_symLe`, `raptorLegacy_symLe`.) -/
 theorem close_object_only_last {s1 s2 : Enc} {f : Bool} {p : Pkt}
     (h : Run P c aL aS nL n closable tr s1) (hle : SymLe P.codec)
     (hstep : BlockEnc.read P s1 f = (.pkt p, s2)) (hB : p.closeObject = true) :
@@ -232,13 +236,105 @@ theorem forced_stop_single {s1 s2 : Enc} {p : Pkt}
   · intro f
     exact (read_spec h2.setup h2.accepts (tr := pkts (tr ++ [(true, p)])) f hI2 hT2).1 hst
 
-/-- `read` terminates: in every reachable state, forced or not, the loop of `BlockEncoder::read` never runs out
-    of fuel (every `continue` removes a drained block, and blocks opened in between are never drained).
-    PARTIAL with respect to "never panics": the `debug_assert!(transfer_length == 0)` outcome is excluded by the
-    correspondence (no PANIC line outside the recorded findings), not by this theorem. -/
-theorem read_terminates (h : Run P c aL aS nL n closable tr s) (f : Bool) : (BlockEnc.read P s f).1 ≠ .hang := by
+/-- `read` terminates, FULL: in every reachable state, forced or not, `BlockEncoder::read` returns a packet or `None`:
+    it never spins (every `continue` removes a drained block, blocks opened in between are never drained) and it never
+    reaches `debug_assert!(transfer_length == 0)` (blockencoder.rs:81): as long as nothing has been sent every block
+    cut so far is still open, so with `window ≥ 1` and every block accepted the window is not empty. -/
+theorem read_terminates (h : Run P c aL aS nL n closable tr s) (f : Bool) :
+    (BlockEnc.read P s f).1 ≠ .hang ∧ (BlockEnc.read P s f).1 ≠ .panic := by
   obtain ⟨hI, hT, _, _⟩ := h.inv
-  exact Flute.BencTerm.read_no_hang h.setup h.accepts f hI hT
+  exact ⟨Flute.BencTerm.read_no_hang h.setup h.accepts f hI hT, Flute.BencNoPanic.run_no_panic h f⟩
+
+/-- … and exactly the two dropped hypotheses make the `debug_assert` reachable:
+    `interleave_blocks = 0` (no block is ever opened), -/
+theorem panic_reachable_window_zero :
+    (match Enc.new { codec := noCode, e := 2, b := 2, p := 0, window := 0, len := 5 } (.buffer [1, 2, 3, 4, 5]) true with
+     | .ok s0 => (BlockEnc.read { codec := noCode, e := 2, b := 2, p := 0, window := 0, len := 5 } s0 false).1
+     | .error _ => .none) = .panic := by decide
+
+/-- a codec that refuses the first block (Raptor as it is today: a block of 2 symbols, finding `raptor-k<4`;
+    Reed-Solomon with 0 parity before the repair of D21), -/
+theorem panic_reachable_block_refused :
+    (match Enc.new { codec := raptorLegacy (fun _ _ _ _ => []), e := 4, b := 8, p := 1, window := 1, len := 8 }
+        (.buffer (List.range 8)) true with
+     | .ok s0 => (BlockEnc.read { codec := raptorLegacy (fun _ _ _ _ => []), e := 4, b := 8, p := 1, window := 1, len := 8 } s0 false).1
+     | .error _ => .none) = .panic := by decide
+
+/-- while a codec refusing a LATER block ends the transfer silently before that block (11 bytes, E = 1, B = 4: blocks of
+    4, 4, 3 symbols; the third is refused: 10 packets of blocks 0 and 1 only, then `None`) -/
+theorem truncated_when_later_block_refused :
+    (match Enc.new { codec := raptorLegacy (fun _ _ _ _ => []), e := 1, b := 4, p := 1, window := 1, len := 11 }
+        (.buffer (List.range 11)) true with
+     | .ok s0 => (runAll { codec := raptorLegacy (fun _ _ _ _ => []), e := 1, b := 4, p := 1, window := 1, len := 11 } 32 s0).map
+                   (fun p => p.sbn)
+     | .error _ => []) = [0, 0, 0, 0, 0, 1, 1, 1, 1, 1] := by decide
+
+/-! ### the empty object -/
+
+/-- clause (c): an empty object (`L = 0`; `N = 0`, so "every source symbol once" is vacuous) is represented by ONE
+    packet - SBN 0, ESI 0, empty payload, B set whatever `closabled_object` is (so in every transfer) - and every
+    later `read` returns `None`; for a buffer source when the codec yields no shard for the empty buffer (`Quiet`:
+    No-Code, Reed-Solomon - `noCode_quiet`, `reedSolomon_quiet`), for a stream source whatever the codec.
+    Forced or not. -/
+theorem empty_object_lone_packet (P : Params) (hnl : P.legacy = false) (hl : P.len = 0) (hw : 1 ≤ P.window)
+    (closable f : Bool) :
+    (Flute.BencEmpty.Quiet P → ∃ s0 s2, Enc.new P (.buffer []) closable = .ok s0 ∧
+        BlockEnc.read P s0 f = (.pkt emptyPkt, s2) ∧ ∀ f', (BlockEnc.read P s2 f').1 = .none) ∧
+    (∀ st : BlockEnc.Stream, st.bytes = [] → ∃ s0 s2, Enc.new P (.stream st) closable = .ok s0 ∧
+        BlockEnc.read P s0 f = (.pkt emptyPkt, s2) ∧ ∀ f', (BlockEnc.read P s2 f').1 = .none) ∧
+    emptyPkt.closeObject = true ∧ emptyPkt.payload = [] ∧ (alcFlags emptyPkt).1 = false :=
+  ⟨fun hq => Flute.BencEmpty.empty_buffer P hl hw hq closable f,
+   fun st hb => Flute.BencEmpty.empty_stream P hnl hl hw st hb closable f, rfl, rfl, rfl⟩
+
+/-- … but NOT for RaptorQ / Raptor from a buffer (finding `empty-object-fec-buffer-vs-stream`): the empty block's
+    `parity` repair symbols are sent instead (B on the last one of a closable transfer) -/
+theorem empty_object_raptorq_repair_packets :
+    (match Enc.new { codec := raptorQ (fun _ _ _ _ => []), e := 4, b := 3, p := 2, window := 2, len := 0 } (.buffer []) true with
+     | .ok s0 => (runAll { codec := raptorQ (fun _ _ _ _ => []), e := 4, b := 3, p := 2, window := 2, len := 0 } 8 s0).map
+                   (fun p => (p.sbn, p.esi, p.isSource, p.closeObject))
+     | .error _ => []) = [(0, 0, false, false), (0, 1, false, true)] := by decide
+
+/-! ### the glue `SenderSession` / `FileDesc` (lemmas for C12) -/
+
+/-- `closabled_object` of a transfer = `FileDesc::is_last_transfer`: no carousel and this is transfer number
+    `max_transfer_count` (counting from 1) -/
+theorem is_last_transfer_iff (x : Session) :
+    x.isLastTransfer = true ↔ x.carousel = false ∧ x.maxtc = x.count + 1 := by
+  unfold Session.isLastTransfer
+  cases x.carousel <;> simp
+
+/-- a finished transfer is followed by another one iff the object is still in the FDT and
+    (`transfer_count < max_transfer_count` or carousel) -/
+theorem is_expired_iff (x : Session) :
+    x.isExpired = true ↔ x.maxtc ≤ x.count ∧ x.carousel = false := by
+  unfold Session.isExpired
+  by_cases h : x.maxtc > x.count
+  · simp [h]; omega
+  · simp [h]; cases x.carousel <;> simp <;> omega
+
+/-- the glue, for ALL sessions over a non-empty buffer object (`SGood`: any `max_transfer_count`, carousel or not, any
+    transfer / removal history so far): a packet returned by the session's `read` keeps the session good (its encoder is a
+    genuine run of an encoder created with `closabled_object = is_last_transfer`, so every block-encoder theorem above
+    applies to it), and if it carries B while the object is still in the FDT (not removed) then this is the LAST transfer
+    (no carousel, `transfer_count + 1 = max_transfer_count`) and its last packet (nothing left to cut, window drained). -/
+theorem session_close_object_only_last_transfer {x x' : Session} {p : Pkt}
+    (hg : Flute.BencSession.SGood c aL aS nL n x) (h : x.read = (.pkt p, x')) :
+    Flute.BencSession.SGood c aL aS nL n x' ∧
+    (p.closeObject = true → x'.added = true →
+      (x'.carousel = false ∧ x'.maxtc = x'.count + 1) ∧
+      ∃ e', x'.enc = some e' ∧ e'.sbn = n ∧ e'.readEnd = true ∧ ∀ b, b ∈ e'.blocks → b.isEmpty = true) := by
+  obtain ⟨h1, h2⟩ := Flute.BencSession.runLoop_spec 4 x hg p x' h
+  refine ⟨h1, fun hB ha => ?_⟩
+  obtain ⟨h3, h4⟩ := h2 hB ha
+  exact ⟨(is_last_transfer_iff x').mp h3, h4⟩
+
+/-- whole-session run on a concrete object (3 symbols in 2 blocks, RS parity 1, window 2, `max_transfer_count = 3`, no
+    carousel): three identical transfers, B only on the last packet of the third -/
+theorem session_b_only_in_last_transfer :
+    (sessionFlags 40
+      { P := { codec := reedSolomon (fun _ _ _ _ => []), e := 2, b := 2, p := 1, window := 2, len := 5 },
+        src := .buffer [1, 2, 3, 4, 5], maxtc := 3, carousel := false, allowStop := false }) =
+      [false, false, false, false, false, false, false, false, false, false, false, false, false, false, true] := by decide
 
 /-- A flag (close session): never set by the packet builder used by `read` (`new_alc_pkt`), always set by the
     explicit close-session packet (`new_alc_pkt_close_session`) -/
